@@ -433,5 +433,14 @@ def proof_stage(chk, prop, extra_targets=()):
     if not audit["ok"] or bad:
         chk.proof_error = {"audit": audit, "forbidden": bad}
         return False
+    if chk.tier == "thorough":
+        # independent re-check of the compiled files and everything they depend on
+        rc, out = sh(["timeout", "1200", "coqchk", "-silent", "-o"] + COQ_FLAGS + ["IPC.%s" % prop], cwd=COQ, timeout=1300)
+        m = re.search(r"\* Axioms:\s*(.*?)\n\s*\n", out, re.S)
+        axioms = (m.group(1).strip() if m else "?")
+        cov["coqchk"] = {"rc": rc, "axioms": axioms}
+        if rc != 0 or axioms != "<none>":
+            chk.proof_error = {"coqchk": out[-2000:]}
+            return False
     chk.proof_error = None
     return True
